@@ -44,3 +44,99 @@ def c05(tier):
                 bm.append(U(f"bmc:{kind}:n{n}:L{L}:f{f}", "tab", "bmc", dict(kind=kind, n=n, L=L - 1, fixed=[f]), timeout=300))
     tw += [twin(bm[0]), twin(bm[-1])]
     return us + bm + tw
+
+
+# ---------------------------------------------------------------------------------------------
+def pipe_units(tag, mode, tier, integ="generic", physs=(1, 2, 3), timeout=120):
+    from vpkg import alpha
+    out = []
+    gen = integ == "generic"
+    for phys in physs:
+        spines = (alpha.SPINES if gen else alpha.RSPINES)[phys]
+        if gen:
+            alph = ["gS", "gP", "gO", "gG"] if tier == "thorough" else ["gS3", "gP", "gO5", "gG3"]
+        else:
+            alph = ["rS", "rP", "rO" if tier == "thorough" else "rO5", "rG"]
+        entry = {1: "flat_file", 2: "flat_file", 3: "stream_frames"}[phys]
+        if not gen and tag == "rdf":
+            entry = "graph_serialize"
+        presets = [(8, 8, 8, True), (8, 3 if phys == 1 else 4, 2, True), (9, 0, 2, False)]
+        if tier == "quick":
+            presets = presets[1:]
+        for sp in range(len(spines)):
+            for s2 in range(len(alpha.ALPH[alph[0]])):
+                for (nm, pf, dt, delim) in presets:
+                    if tier == "quick" and gen and (sp + s2) % 2 == (0 if delim else 1):
+                        continue
+                    if tier == "quick" and not gen and sp != s2 % len(spines):
+                        continue
+                    e = entry if (delim or entry == "graph_serialize") else ("flat_frames" if phys != 3 else "stream_frames")
+                    fixeds = [[s2]] if ((phys == 1 or not delim) and gen) else [[s2, p2] for p2 in range(len(alpha.ALPH[alph[1]]))]
+                    for fx in fixeds:
+                        out.append(U(f"{tag}:{integ}:p{phys}:sp{sp}:f{'.'.join(map(str, fx))}:t{nm}-{pf}-{dt}:d{int(delim)}", "pipe", "pipe",
+                                     dict(integ=integ, phys=phys, entry=e, names=nm, prefixes=pf, datatypes=dt, delimited=delim,
+                                          spine=sp, fixed=fx, alph=alph, K=2, mode=mode, setcmp=not gen,
+                                          pentry="graph_parse" if tag == "rdf" and delim else ("to_graph" if tag == "rdf" else "flat")), timeout=timeout))
+    return out
+
+
+PIPE_FUNCS = ["pyjelly/serialize/encode.py:*", "pyjelly/serialize/lookup.py:*", "pyjelly/serialize/streams.py:*", "pyjelly/serialize/flows.py:*",
+              "pyjelly/serialize/ioutils.py:*", "pyjelly/parse/decode.py:*", "pyjelly/parse/lookup.py:*", "pyjelly/parse/ioutils.py:*",
+              "pyjelly/integrations/generic/serialize.py:*", "pyjelly/integrations/generic/parse.py:*", "pyjelly/integrations/generic/generic_sink.py:*"]
+
+
+@prop("C01", functions=PIPE_FUNCS + TAB_FUNCS,
+      bounds={"quick": {"statements": 2, "frame_size": "symbolic, every integer >= 1", "physical": "TRIPLES, QUADS, GRAPHS", "tables": "(8,3|4,2) delimited, (9,0,2) non-delimited",
+                        "alphabet": "reduced class alphabet (vpkg/alpha.py gS3,gP,gO5,gG3), statement 1 from 4 spines"},
+              "thorough": {"statements": 2, "frame_size": "symbolic, every integer >= 1", "tables": "(8,8,8),(8,3|4,2),(9,0,2)", "alphabet": "full class alphabet"}},
+      outside="more than 2 statements end-to-end (covered per table by the inductive lemmas of C05), strings outside the alphabets (T5), name-table evictions end-to-end",
+      explanation="H-PIPE-GEN: real generic serializer entry points -> bytes -> real generic parser, list equality; plus L-SPLIT on a symbolic string")
+def c01(tier):
+    us = pipe_units("pipe", "roundtrip", tier)
+    us.append(twin(us[0]))
+    us.append(twin(us[-2]))
+    sp = U("split", "split", "split", dict(maxlen=4 if tier == "quick" else 6), timeout=60 if tier == "quick" else 600)
+    return us + [sp, twin(sp)]
+
+
+RDF_FUNCS = ["pyjelly/integrations/rdflib/serialize.py:*", "pyjelly/integrations/rdflib/parse.py:*", "pyjelly/serialize/streams.py:*", "pyjelly/serialize/encode.py:*", "pyjelly/parse/decode.py:*"]
+
+
+@prop("C02", functions=RDF_FUNCS,
+      bounds={"quick": {"statements": 2, "frame_size": "symbolic >= 1", "physical": "TRIPLES (Graph), QUADS and GRAPHS (Dataset)", "entry": "Graph.serialize(format='jelly') / Graph.parse, parse_jelly_to_graph"},
+              "thorough": {"statements": 2, "frame_size": "symbolic >= 1", "tables": "three presets"}},
+      outside="rdflib's own literal normalisation (trusted T3); more than 2 statements; strings outside the alphabet",
+      explanation="H-PIPE-RDF: rdflib Graph/Dataset -> real rdflib serializer plugin -> bytes -> real rdflib parser plugin; set equality of triples/quads")
+def c02(tier):
+    us = pipe_units("rdf", "roundtrip", tier, integ="rdflib")
+    return us + [twin(us[0])]
+
+
+@prop("C03", functions=PIPE_FUNCS + RDF_FUNCS,
+      bounds={"quick": {"statements": 2, "frame_size": "symbolic >= 1", "physical": "all three", "integrations": "generic (reduced alphabet), rdflib (one spine per subject)"},
+              "thorough": {"statements": 2, "frame_size": "symbolic >= 1", "alphabet": "full"}},
+      outside="as C01; the reference decoder (vpkg/ref) is my reading of the Jelly spec (T4)",
+      explanation="bytes written by the real serializers are decoded by the independent reference codec only (no pyjelly, no rdf_pb2): options first, ids within declared sizes, zero-delta rules, complete first statement/quoted triples, row kinds per physical type, namespace rows only in v2; result must equal the input",
+      assumptions=["T4: reference codec validated against the repository's fixtures at every run (vpkg.ref.selftest)"])
+def c03(tier):
+    us = pipe_units("ref", "ref", tier)
+    r = pipe_units("refrdf", "ref", tier, integ="rdflib")
+    for u in r:
+        u["params"]["entry"] = {1: "flat_file", 2: "flat_file", 3: "stream_frames"}[u["params"]["phys"]] if u["params"]["delimited"] else "stream_frames"
+        u["params"]["setcmp"] = u["params"]["phys"] == 3  # rdflib's GRAPHS path goes through a Dataset (a set)
+        u["timeout"] = 300
+    if tier == "quick":
+        r = [u for u in r if u["params"]["phys"] != 3 or u["params"]["fixed"][0] == 0]
+    return us + r + [twin(us[0]), twin(r[0])]
+
+
+@prop("C19", functions=PIPE_FUNCS + TAB_FUNCS,
+      bounds={"quick": {"table lemma": "n 1..4 all fill levels (inductive)", "streams": "2 statements, frame_size symbolic"},
+              "thorough": {"table lemma": "n 1..8", "streams": "2 statements, full alphabet"}},
+      outside="as C01/C05",
+      explanation="L-TAB-ZERO: from any invariant table state, entry emitted iff key not resident, zero forms iff the delta rule makes them equivalent; audit counters of the reference decoder on every H-PIPE stream: redundant entries, missed zero forms, missed elisions all 0; one graph start per maximal run of equal graph names")
+def c19(tier):
+    ns = [1, 2, 3, 4] if tier == "quick" else [1, 2, 3, 4, 5, 6, 7, 8]
+    z = tab_units("zero_step", ns, 120 if tier == "quick" else 900)
+    us = pipe_units("audit", "audit", tier)
+    return z + us + [twin(z[5]), twin(z[-1]), twin(us[0])]
